@@ -102,12 +102,26 @@ def bounded_triggering_ancestors(tier, seed):
     for scope, n, max_edges, parallel in plan:
         for edges in _graphs(n, scope, max_edges, parallel):
             # every order in which the connections could have been made matters for the FIRST loop: try two orders
-            for order in (edges, list(reversed(edges))):
+            # ... and the OTHER connection tables must not matter: once with input_delays holding just the trigger connections, once
+            # with an additional non-trigger connection between every ordered pair of simulators (delay zero resp. the largest choice)
+            for order, extra in ((edges, None), (list(reversed(edges)), None), (edges, "zero"), (edges, "large")):
                 cases += 1
                 w, sims = _world(n, [1 if scope == "flat" else 2] * n)
                 try:
                     for k, (a, b, d) in enumerate(order):
                         sims[a].triggers.setdefault((f"e{k}", "x"), []).append((sims[b], _interval(scope, d)))
+                        cur = sims[b].input_delays.get(sims[a])
+                        if cur is None or _interval(scope, d) < cur:
+                            sims[b].input_delays[sims[a]] = _interval(scope, d)
+                    if extra is not None:
+                        ch = _edge_choices(scope)
+                        dflt = _interval(scope, ch[0] if extra == "zero" else (2 if scope == "flat" else (1, 0)))
+                        for a in range(n):
+                            for b in range(n):
+                                if a != b:
+                                    cur = sims[b].input_delays.get(sims[a])
+                                    if cur is None or dflt < cur:
+                                        sims[b].input_delays[sims[a]] = dflt
                     try:
                         w.cache_triggering_ancestors()
                     except Exception as e:
@@ -136,7 +150,7 @@ def _js(x):
 
 def _bound_text(plan):
     return "; ".join(f"{scope}: all multigraphs on {n} simulators with <= {me} edges, <= {par} parallel per pair, "
-                     f"delays from {_edge_choices(scope)}, two connection orders" for scope, n, me, par in plan)
+                     f"delays from {_edge_choices(scope)}, two connection orders, with / without additional non-trigger connections between all pairs" for scope, n, me, par in plan)
 
 
 # ------------------------------------------------------------------ cycle detection
